@@ -53,11 +53,10 @@ def _bytes_ai_part(chk, m, S, rep):
     # names of the loop-carried variables by role: start = the slice's lower bound; remaining = S - start
     if rep.get("mode") == "inductive":
         invs = rep.get("invariants", [])
-        has_sum = any("==" in d and "+" in d for d in invs)
-        chk.require(has_sum, "R02.1", "invariant:start+remaining==S",
-                    f"`start + remaining == len(body)` is not an inductive invariant of the splitting loop "
-                    f"(proved: {invs})", m.segmenter.where,
-                    detail_ok=f"proved invariants: {invs}")
+        # (which relations had to be proved depends on how the loop keeps its place - one position variable, or a
+        #  position and a remaining count with `start + remaining == len(body)`; what is required are the obligations
+        #  below - tiling, continuity, exit only when everything was emitted - at an arbitrary iteration)
+        chk.info["loop_invariants"] = invs
     failed_exact = set()
     pending = {}
     order = sorted(range(len(m.yields)), key=lambda i: (not m.yields[i]["exact"], i))
